@@ -76,6 +76,11 @@ type Env struct {
 	FailCreate, FailDelete, FailPatch map[string]bool
 	FailStatus                        map[int]bool // indices of the UpdateStatus calls of this step that fail
 	statusCalls                       int
+	// fault plan of the give-up execution (handleJobError sending TerminateJob once the requeue budget is
+	// used up): installed at the moment the controller records "... for retry limit reached"
+	GiveCreate, GiveDelete, GivePatch map[string]bool
+	GiveStatus                        map[int]bool
+	GaveUp                            bool
 	Calls                             []Call
 	// objects the controller handed to Create (pods), for marker checks
 	Created []*v1.Pod
@@ -131,6 +136,14 @@ func Get() *Env {
 		panic(err)
 	}
 	e.Ctl = ctl
+	// handleJobError records this event right before it executes TerminateJob through the state object
+	ctl.VerifOnEvent(func(_, _, message string) {
+		if strings.Contains(message, "for retry limit reached") {
+			e.GaveUp = true
+			e.FailCreate, e.FailDelete, e.FailPatch, e.FailStatus = e.GiveCreate, e.GiveDelete, e.GivePatch, e.GiveStatus
+			e.statusCalls = 0
+		}
+	})
 	for k := int64(1); k <= 4; k++ {
 		if err := ctl.VerifPriorityClassIndexer().Add(NewPriorityClass(fmt.Sprintf("pc%d", k), int32(k*10))); err != nil {
 			panic(err)
@@ -263,6 +276,9 @@ func (e *Env) installReactors() {
 func (e *Env) BeginStep() {
 	e.FailCreate, e.FailDelete, e.FailPatch = map[string]bool{}, map[string]bool{}, map[string]bool{}
 	e.FailStatus = map[int]bool{}
+	e.GiveCreate, e.GiveDelete, e.GivePatch = map[string]bool{}, map[string]bool{}, map[string]bool{}
+	e.GiveStatus = map[int]bool{}
+	e.GaveUp = false
 	e.FailPgCreate, e.FailPgUpdate = 0, 0
 	e.statusCalls = 0
 	e.Calls = nil
@@ -610,6 +626,7 @@ func (e *Env) dropIndexers(ns string) {
 // Restart: the controller process restarts -- empty job cache, empty listers; nothing delivered yet.
 func (e *Env) Restart(ns string) {
 	e.Ctl.VerifResetCache()
+	e.Ctl.VerifResetRequeues() // a new process: a new worker queue
 	e.Ctl.VerifDropDelayedActions(jobKey(ns))
 	e.dropIndexers(ns)
 	e.dJob, e.dPG, e.jobDelivered, e.prevJob = nil, nil, false, nil
@@ -725,8 +742,10 @@ func (e *Env) Cleanup(ns string) {
 	resetJobUID()
 }
 
-// ProcessReq delivers a request through processNextReq; true = the action failed (re-queued).
-func (e *Env) ProcessReq(req apis.Request) bool { return e.Ctl.VerifProcessReq(req) }
+// ProcessReq delivers a request through processNextReq on a worker queue whose requeue counters
+// persist through the case; true = the action failed (the request was re-queued, or the controller
+// gave up on it: e.GaveUp).
+func (e *Env) ProcessReq(req apis.Request) bool { return e.Ctl.VerifProcessReqCounted(req) || e.GaveUp }
 
 var EventNames = []bus.Event{"", bus.AnyEvent, bus.PodFailedEvent, bus.PodEvictedEvent, bus.PodPendingEvent, bus.PodRunningEvent,
 	bus.JobUnknownEvent, bus.TaskCompletedEvent, bus.OutOfSyncEvent, bus.CommandIssuedEvent, bus.JobUpdatedEvent, bus.TaskFailedEvent}
